@@ -559,11 +559,19 @@ void Ports::dispatch(const char *m, rtosc::RtData &d, bool base_dispatch) const
         char *old_end = d.loc;
         while(*old_end) ++old_end;
 
+        //room left in d.loc (an index can be spelled with any number of
+        //digits, so the message decides how long the location gets)
+        const size_t loc_left = d.loc_size - (old_end - d.loc);
+
         if(impl->pos.empty()) { //No perfect minimal hash function
             for(unsigned i=0; i<elms; ++i) {
                 const Port &port = ports[i];
                 const char* m_end;
                 if(!rtosc_match(port.name, m, &m_end))
+                    continue;
+                //a location that does not fit is not dispatched
+                if((strchr(port.name,'#') ? (size_t)(m_end - m)
+                                          : strlen(port.name)) >= loc_left)
                     continue;
                 if(!port.ports)
                     d.matches++;
@@ -618,6 +626,10 @@ void Ports::dispatch(const char *m, rtosc::RtData &d, bool base_dispatch) const
             //Verify the chosen port is correct
             if(__builtin_expect(impl->hard_match(port_num, m), 1)) {
                 const Port &port = ports[impl->remap[t]];
+                //a location that does not fit is not dispatched
+                if((impl->enump()[port_num] ? (size_t)len + 1
+                                    : impl->fixed[port_num].length()) >= loc_left)
+                    return;
                 if(!port.ports)
                     d.matches++;
 
